@@ -14,6 +14,7 @@ core = simproc.core
 ID = "C16"
 LEVEL = "exploration"
 BATCH = 25
+PROBES_EXPECTED = ['probe:start-on-tool-written-file', 'probe:restart-on-own-save', 'probe:quit-without-asking', 'probe:session-ended']
 TIERS = {"quick": {"runs": 5000, "wall": 50}, "thorough": {"runs": 200000, "wall": 840}}
 RULE = ("each run draws a program (optionally an older version and a rename table), an initial sdkconfig class (absent / written by the same tool flow "
         "for the same program / for an older version / with a deprecated block / hand-edited with unknown, duplicate, deprecated entries) and a history of "
